@@ -328,6 +328,8 @@ class Unit:
         if any(d.kind == 'r7' for d in blk.dirs):
             item = X.split_or_patterns(item, log)
         extra_caps = {}
+        if any(d.kind == 'r16' for d in blk.dirs):
+            item = X.strip_ref_patterns(item, log)
         for d in blk.dirs:
             if d.kind == 'param':
                 a = d.arg.split()
